@@ -1,5 +1,299 @@
-(* Props/C09.v -- placeholder while the proofs are being written *)
-From LV Require Import Base.Bytes Model.A85 Model.Png Model.StreamFilt.
-Theorem C09_placeholder : True.
-Proof. exact I. Qed.
-Print Assumptions C09_placeholder.
+(* Props/C09.v -- property C09: stream filters decode as specified; compression is lossless.
+   Statements only; proofs live in Proofs/FilterProofs{Png,A85,Dict,Stream,Doc}.v.
+
+   Model: Model/{A85,Png,StreamFilt}.v (the code after five repairs), Model/FiltersPinned.v (the code before).
+   Specification: Spec/{A85Spec,PngSpec,StreamSpec}.v (ISO 32000-1 7.4.3, PNG 1.2 section 6, ISO 32000-1 7.3.8.2 /
+   7.4.4), sharing no definition with the model.
+
+   THIRD PARTY.  flate2 (zlib) and weezl (LZW) are not modelled.  They appear as the universally quantified
+   functions [inflate], [lzw e] (what the decoders leave in the output buffer) and [deflate]; whatever a theorem
+   needs to know about them is a hypothesis written out in its statement.  In the decoding theorems "enc is a
+   zlib / LZW stream for payload" is by definition "the third-party decoder returns payload for enc", so those
+   theorems speak about lopdf's own code around the decoders: parameter routing, predictor, ASCII85, chaining.
+
+   [dict_wf d] = the keys of d are pairwise distinct; the Rust type IndexMap guarantees it. *)
+From LV Require Import Base.Bytes Model.Obj Gen.Filters Model.A85 Model.Png Model.StreamFilt Model.FiltersPinned
+  Spec.A85Spec Spec.PngSpec Spec.StreamSpec
+  Proofs.FilterProofsPng Proofs.FilterProofsA85 Proofs.FilterProofsDict Proofs.FilterProofsStream Proofs.FilterProofsDoc.
+
+(* ================= (1) PNG predictors ================= *)
+
+(* all 2^24 (left, above, upper-left) triples, by arithmetic *)
+Theorem C09_paeth_eq_spec :
+  forall l a ul, val (paeth l a ul) = PaethPredictor (val l) (val a) (val ul).
+Proof. exact paeth_eq_spec. Qed.
+
+(* the five numbers in front of a row select the five filter types *)
+Theorem C09_filter_types :
+  forall tn, valid_type tn -> exists t, ftype_of_N tn = Some t /\ tnum t = tn.
+Proof.
+  intros tn H. destruct (ftype_of_N_valid tn H) as [t Ht]. exists t. split; [exact Ht|].
+  symmetry. apply ftype_of_N_tnum. exact Ht.
+Qed.
+
+(* every filter type, every bytes-per-pixel > 0, every row and previous row: decode_row inverts the PNG encoder *)
+Theorem C09_decode_row_encode_row :
+  forall t bpp prior raw,
+    0 < bpp -> length prior = length raw ->
+    decode_row t (N.of_nat bpp) prior (encode_row (tnum t) bpp prior raw) = Ok raw.
+Proof. exact decode_row_encode_row. Qed.
+
+(* on ANY input row (not only encoder output) the result satisfies the reconstruction equations of the PNG
+   reference decoder, and those equations have only one solution *)
+Theorem C09_decode_row_is_reference_decoding :
+  forall t bpp prior filt raw,
+    0 < bpp -> length prior = length filt ->
+    decode_row t (N.of_nat bpp) prior filt = Ok raw ->
+    Recon (tnum t) bpp prior filt raw /\ forall raw', Recon (tnum t) bpp prior filt raw' -> raw' = raw.
+Proof.
+  intros t bpp prior filt raw Hb Hl H. pose proof (decode_row_Recon t bpp prior filt raw Hb Hl H) as R.
+  split; [exact R|]. intros raw' R'. exact (Recon_unique _ _ _ _ _ _ Hb R' R).
+Qed.
+
+(* a whole frame: any number of rows, any mixture of filter types *)
+Theorem C09_decode_frame_encode_frame :
+  forall bpp ppr types rows,
+    0 < bpp ->
+    (N.of_nat (bpp * ppr) <= USIZE_MAX)%N ->
+    length types = length rows ->
+    Forall valid_type types ->
+    Forall (fun r => length r = bpp * ppr) rows ->
+    decode_frame (encode_frame types bpp (bpp * ppr) rows) (N.of_nat bpp) (N.of_nat ppr) = Ok (concat rows).
+Proof. exact decode_frame_encode_frame. Qed.
+
+(* Predictor 10..15, any Columns >= 1, any Colors >= 1, BitsPerComponent 8 or 16, absent entries defaulted as in
+   table 8: decode_frame is called with the geometry of the standard *)
+Theorem C09_predictor_params :
+  forall p pp data,
+    legal_pp pp -> parms_describe (Some p) pp ->
+    decompress_predictor data (Some p) =
+      decode_frame data (N.of_nat (bytes_per_pixel pp)) (N.of_nat (Z.to_nat (pp_columns pp))) /\
+    bytes_per_row pp = bytes_per_pixel pp * Z.to_nat (pp_columns pp) /\ 0 < bytes_per_pixel pp.
+Proof.
+  intros p pp data L D. split; [exact (predictor_params p pp data L D)|].
+  destruct (geometry pp L) as (G0 & G1 & _). split; assumption.
+Qed.
+
+(* Predictor absent or 1: the data is passed through *)
+Theorem C09_predictor_absent :
+  forall p data, int_parm p P_Predictor 1 = 1%Z -> decompress_predictor data p = Ok data.
+Proof. exact predictor_absent. Qed.
+
+(* ================= (2) ASCII85 ================= *)
+
+(* every byte string, i.e. every number of full groups followed by every partial final group *)
+Theorem C09_a85_decode_encode :
+  forall data, A85.decode (A85Spec.encode data ++ EOD) = Ok data.
+Proof. exact a85_decode_encode. Qed.
+
+(* every well-formed text: white space (ISO 32000-1 table 1) anywhere in the body, EOD, then anything *)
+Theorem C09_a85_agrees :
+  forall data text, a85_text data text -> A85.decode text = Ok data.
+Proof. exact a85_agrees. Qed.
+
+(* beyond the standard: a missing EOD marker is tolerated *)
+Theorem C09_a85_missing_eod :
+  forall data body,
+    filter (fun b => negb (is_white b)) body = A85Spec.encode data -> A85.decode body = Ok data.
+Proof. exact a85_missing_eod. Qed.
+
+(* ================= (3) Filter / DecodeParms plumbing and whole chains ================= *)
+
+(* both parameter forms: one dictionary, or an array parallel to the filters (null = no parameters) *)
+Theorem C09_decode_parms_forms :
+  forall d i, params_for d i = spec_params (dict_get d P_DecodeParms) i.
+Proof. exact params_for_spec. Qed.
+
+Theorem C09_filter_entry :
+  forall d o names, dict_get d P_Filter = Some o -> filter_entry names o -> filters d = Ok names.
+Proof. exact filters_spec. Qed.
+
+(* one stage: FlateDecode / LZWDecode (EarlyChange 0, 1 or absent) with or without PNG predictor, ASCII85Decode *)
+Theorem C09_stage_decodes :
+  forall inflate lzw st p data enc,
+    encodes_stage inflate lzw st data enc -> stage_parms_ok st p ->
+    decode_one inflate lzw (stage_name st) p enc = Ok data.
+Proof. exact stage_decodes. Qed.
+
+(* every chain (of any length >= 1) over the three filters, every legal parameter set, both parameter forms,
+   every byte string: the decoded content is the data the reference encoders started from *)
+Theorem C09_chain_decodes :
+  forall inflate lzw stages d content plain fo,
+    stages <> [] ->
+    dict_get d P_Filter = Some fo -> filter_entry (map stage_name stages) fo ->
+    (forall i st, nth_error stages i = Some st -> stage_parms_ok st (spec_params (dict_get d P_DecodeParms) i)) ->
+    encodes_chain inflate lzw stages plain content ->
+    decompressed_content inflate lzw {| s_dict := d; s_content := content |} = Ok plain /\
+    get_plain_content inflate lzw {| s_dict := d; s_content := content |} = Ok plain.
+Proof. exact chain_decodes. Qed.
+
+(* non-vacuity: ASCII85 around Flate with Predictor 12 / Columns 2, rows of types Up and Average, parameters as a
+   parallel array [null, << >>]; and the single-filter stream with the parameters as one dictionary *)
+Theorem C09_example_chain_array :
+  ex_stages <> [] /\
+  dict_get ex_dict_array P_Filter = Some (OArr (map OName (map stage_name ex_stages))) /\
+  (forall i st, nth_error ex_stages i = Some st -> stage_parms_ok st (spec_params (dict_get ex_dict_array P_DecodeParms) i)) /\
+  encodes_chain ex_inflate ex_lzw ex_stages (concat ex_rows) ex_content /\
+  concat ex_rows = [x01; x02; x03; x05].
+Proof. exact ex_array_hyps. Qed.
+
+Theorem C09_example_chain_dict :
+  dict_get ex_dict_single P_Filter = Some (OName N_FlateDecode) /\
+  stage_parms_ok (SFlate (Some ex_pred)) (spec_params (dict_get ex_dict_single P_DecodeParms) 0) /\
+  encodes_chain ex_inflate ex_lzw [SFlate (Some ex_pred)] (concat ex_rows) ex_zlib.
+Proof. exact ex_single_hyps. Qed.
+
+(* ================= (4) compression, Length ================= *)
+
+Theorem C09_length_after_set_content :
+  forall s c, s_content (set_content s c) = c /\ length_ok (set_content s c).
+Proof. intros s c. destruct (set_content_spec s c) as (H1 & H2 & _). split; assumption. Qed.
+
+Theorem C09_length_after_set_plain_content :
+  forall s c,
+    s_content (set_plain_content s c) = c /\ length_ok (set_plain_content s c) /\
+    (dict_wf (s_dict s) -> unfiltered (set_plain_content s c)).
+Proof.
+  intros s c. destruct (set_plain_content_spec s c) as (H1 & H2 & H3).
+  split; [exact H1|]. split; [exact H2|]. intro W. apply H3. exact W.
+Qed.
+
+(* compress either leaves the stream alone or sets Length to the new content length *)
+Theorem C09_length_after_compress :
+  forall deflate s, compress deflate s = s \/ length_ok (compress deflate s).
+Proof. exact compress_length. Qed.
+
+Theorem C09_length_after_decompress :
+  forall inflate lzw s s',
+    decompress inflate lzw s = Ok s' ->
+    decompressed_content inflate lzw s = Ok (s_content s') /\ length_ok s' /\
+    (dict_wf (s_dict s) -> unfiltered s' /\ get_plain_content inflate lzw s' = Ok (s_content s')).
+Proof. exact decompress_spec. Qed.
+
+(* whatever the compressor returns, the stream never becomes longer *)
+Theorem C09_compress_never_longer :
+  forall deflate s, length (s_content (compress deflate s)) <= length (s_content s).
+Proof. exact compress_never_longer. Qed.
+
+(* compressing and decoding again returns the original bytes; the two facts assumed about flate2 concern the
+   content of this one stream *)
+Theorem C09_compress_lossless :
+  forall inflate lzw deflate s,
+    dict_wf (s_dict s) ->
+    inflate (deflate (s_content s)) = s_content s -> deflate (s_content s) <> [] ->
+    get_plain_content inflate lzw (compress deflate s) = get_plain_content inflate lzw s.
+Proof. exact compress_lossless. Qed.
+
+Theorem C09_compress_unfiltered_lossless :
+  forall inflate lzw deflate s,
+    dict_wf (s_dict s) -> dict_get (s_dict s) P_Filter = None ->
+    inflate (deflate (s_content s)) = s_content s -> deflate (s_content s) <> [] ->
+    get_plain_content inflate lzw (compress deflate s) = Ok (s_content s).
+Proof. exact compress_unfiltered_lossless. Qed.
+
+(* non-vacuity: a stream that IS compressed (and carries a stale DecodeParms) under a codec satisfying the laws *)
+Theorem C09_example_compress :
+  dict_wf (s_dict stale_stream) /\ dict_get (s_dict stale_stream) P_Filter = None /\
+  toy_inflate (toy_deflate (s_content stale_stream)) = s_content stale_stream /\
+  toy_deflate (s_content stale_stream) <> [] /\
+  get_plain_content toy_inflate ex_lzw (compress toy_deflate stale_stream) = Ok (s_content stale_stream) /\
+  compress toy_deflate stale_stream <> stale_stream.
+Proof.
+  destruct compress_pinned_refuted as (H1 & H2 & H3 & H4 & _). destruct compress_witness_repaired as (H5 & H6).
+  repeat split; assumption.
+Qed.
+
+(* Document::compress and Document::decompress, object by object *)
+Theorem C09_document_compress :
+  forall inflate lzw deflate nocomp m,
+    Forall2 (compressed_obj inflate lzw deflate nocomp) m (doc_compress deflate nocomp m).
+Proof. exact doc_compress_spec. Qed.
+
+Theorem C09_document_decompress :
+  forall inflate lzw m m',
+    doc_decompress inflate lzw m = Ok m' -> Forall2 (decompressed_obj inflate lzw) m m'.
+Proof. exact doc_decompress_spec. Qed.
+
+(* ================= (5) the names and defaults read from the source are those of the standard ================= *)
+
+Theorem C09_names_agree :
+  K_Filter = P_Filter /\ K_DecodeParms_ = P_DecodeParms /\ K_Length = P_Length /\
+  F_FLATE = N_FlateDecode /\ F_LZW = N_LZWDecode /\ F_A85 = N_ASCII85Decode /\ COMPRESS_FILTER = N_FlateDecode /\
+  K_Predictor = P_Predictor /\ K_COLUMNS = P_Columns /\ K_COLORS = P_Colors /\ K_BITS = P_BitsPerComponent /\
+  K_EarlyChange = P_EarlyChange /\
+  (PRED_DEFAULT = 1 /\ PRED_LO = 10 /\ PRED_HI = 15 /\ COLUMNS_DEFAULT = 1 /\ COLORS_DEFAULT = 1 /\ BITS_DEFAULT = 8)%Z /\
+  EARLY_CHANGE_DEFAULT = true.
+Proof. exact names_agree. Qed.
+
+(* ================= (6) the pinned tree violated the property in five ways (all repaired in /repo) ================= *)
+
+(* f51f21b: Average predictor, row [8; 19] over [10; 20], one byte per pixel, came back as [8; 23] *)
+Theorem C09_avg_pinned_refuted :
+  exists prior raw, length prior = length raw /\
+    decode_row_v0 FAvg 1 prior (encode_row 3 1 prior raw) = Ok [x08; x17] /\ raw = [x08; x13].
+Proof. exact avg_pinned_refuted. Qed.
+
+(* c049d3a: a group denoting 2^32 panicked (add with overflow); now it is an error value *)
+Theorem C09_a85_overflow_pinned_refuted :
+  decode_v0 (bs "s8W-""~>") = Panic /\ A85.decode (bs "s8W-""~>") = Err EA85.
+Proof. split; [exact a85_overflow_pinned_panics | exact a85_overflow_is_error]. Qed.
+
+(* efed7db: a NUL inside well-formed ASCII85 text silently ended the data *)
+Theorem C09_a85_nul_pinned_refuted :
+  exists data text, a85_text data text /\ decode_v0 text = Ok (firstn 5 data) /\ firstn 5 data <> data.
+Proof. exact a85_nul_pinned_refuted. Qed.
+
+(* c3c22fe: DecodeParms as a parallel array was ignored, the predictor silently skipped *)
+Theorem C09_parms_array_pinned_refuted :
+  decompressed_content_v0 ex_inflate ex_lzw {| s_dict := ex_dict_array; s_content := ex_content |} = Ok ex_payload /\
+  ex_payload <> concat ex_rows.
+Proof. exact parms_array_pinned_refuted. Qed.
+
+(* fcb7fe1: compress kept a stale DecodeParms, which the new FlateDecode filter then obeyed: 25 bytes became 20 *)
+Theorem C09_compress_pinned_refuted :
+  dict_wf (s_dict stale_stream) /\ dict_get (s_dict stale_stream) P_Filter = None /\
+  toy_inflate (toy_deflate (s_content stale_stream)) = s_content stale_stream /\
+  toy_deflate (s_content stale_stream) <> [] /\
+  decompressed_content_v0 toy_inflate ex_lzw (compress_v0 toy_deflate stale_stream) = Ok (repeat x00 20) /\
+  repeat x00 20 <> s_content stale_stream.
+Proof. exact compress_pinned_refuted. Qed.
+
+(* the same witnesses on the repaired code *)
+Theorem C09_witnesses_repaired :
+  decode_row FAvg 1 [x0a; x14] (encode_row 3 1 [x0a; x14] [x08; x13]) = Ok [x08; x13] /\
+  A85.decode nul_witness_text = Ok nul_witness_data.
+Proof. split; [exact avg_witness_repaired | exact a85_nul_repaired]. Qed.
+
+Print Assumptions C09_paeth_eq_spec.
+Print Assumptions C09_filter_types.
+Print Assumptions C09_decode_row_encode_row.
+Print Assumptions C09_decode_row_is_reference_decoding.
+Print Assumptions C09_decode_frame_encode_frame.
+Print Assumptions C09_predictor_params.
+Print Assumptions C09_predictor_absent.
+Print Assumptions C09_a85_decode_encode.
+Print Assumptions C09_a85_agrees.
+Print Assumptions C09_a85_missing_eod.
+Print Assumptions C09_decode_parms_forms.
+Print Assumptions C09_filter_entry.
+Print Assumptions C09_stage_decodes.
+Print Assumptions C09_chain_decodes.
+Print Assumptions C09_example_chain_array.
+Print Assumptions C09_example_chain_dict.
+Print Assumptions C09_length_after_set_content.
+Print Assumptions C09_length_after_set_plain_content.
+Print Assumptions C09_length_after_compress.
+Print Assumptions C09_length_after_decompress.
+Print Assumptions C09_compress_never_longer.
+Print Assumptions C09_compress_lossless.
+Print Assumptions C09_compress_unfiltered_lossless.
+Print Assumptions C09_example_compress.
+Print Assumptions C09_document_compress.
+Print Assumptions C09_document_decompress.
+Print Assumptions C09_names_agree.
+Print Assumptions C09_avg_pinned_refuted.
+Print Assumptions C09_a85_overflow_pinned_refuted.
+Print Assumptions C09_a85_nul_pinned_refuted.
+Print Assumptions C09_parms_array_pinned_refuted.
+Print Assumptions C09_compress_pinned_refuted.
+Print Assumptions C09_witnesses_repaired.
